@@ -650,3 +650,21 @@ Proof.
     unfold observe, model_fan in OK. cbn [f_cap f_evs f_final f_ro0 f_err] in OK.
     apply prop_ok_fan_l in OK. rewrite spec_fan_is_fan_cap_l. exact OK.
 Qed.
+
+(* ---- constructor capabilities ------------------------------------------------------------------------------ *)
+From Verif Require C06.CapProofs.
+Lemma spec_last_is_last opts d : spec_last opts d = last opts d.
+Proof.
+  unfold spec_last. induction opts as [|a r IH] using rev_ind; [reflexivity|].
+  rewrite rev_app_distr. simpl. now rewrite last_last.
+Qed.
+
+Lemma model_passes_cap_l kind sig opts batching :
+  prop_ok (CBuilt kind sig opts batching (model_cap kind opts batching)) = true.
+Proof.
+  unfold prop_ok. cbn [case_clauses forallb]. unfold id. rewrite andb_true_r.
+  unfold model_cap, spec_cap. destruct kind as [|[|k]]; rewrite ?spec_last_is_last.
+  - rewrite CapProofs.base_cap_last. apply eqb_reflx.
+  - rewrite CapProofs.proc_cap_last. apply eqb_reflx.
+  - destruct batching; [rewrite CapProofs.exp_cap_batching|rewrite CapProofs.exp_cap_plain, CapProofs.base_cap_last]; apply eqb_reflx.
+Qed.
